@@ -209,8 +209,29 @@ func ReplayLocal(base int, evs []LEv, rnd *rand.Rand) ([]LLine, error) {
 				ln.Note = "provider call did not finish"
 			}
 		case "purge":
-			key := groups.CacheKey{Email: email(e.U), AllowedGroups: strings.Join(sorted(G), ",")}
-			gcache.VerifCache().Purge(key)
+			// the entry for this user and this set of groups expires - whatever the cache's key looks like: the keys it
+			// holds are listed, and the one that names this user and exactly these groups is purged
+			purged := false
+			if lc, ok := gcache.VerifCache().(*groups.LocalCache); ok {
+				for _, k := range lc.VerifKeys() {
+					if k.Email != email(e.U) {
+						continue
+					}
+					same := true
+					for _, g := range allGroups {
+						if strings.Contains(k.AllowedGroups, g) != contains(G, g) {
+							same = false
+						}
+					}
+					if same {
+						lc.Purge(k)
+						purged = true
+					}
+				}
+			}
+			if !purged {
+				gcache.VerifCache().Purge(groups.CacheKey{Email: email(e.U), AllowedGroups: strings.Join(sorted(G), ",")})
+			}
 		}
 		lines = append(lines, ln)
 	}
@@ -267,4 +288,16 @@ func RunLocalReplay(in, out string, seed int64, sample, workers, only int) (*Sum
 	}
 	bw.Flush()
 	return sum, nil
+}
+
+// allGroups are the group names the specifications use (none is a substring of another).
+var allGroups = []string{"g1", "g2", "g3", "g4"}
+
+func contains(xs []string, x string) bool {
+	for _, y := range xs {
+		if y == x {
+			return true
+		}
+	}
+	return false
 }
